@@ -186,9 +186,21 @@ def regen(chk=None):
         return True
     rc, out, err = sh([sys.executable, tool], cwd=VERIF, timeout=300)
     ok = rc == 0
+    fallback = {}
+    try:
+        st = json.load(open(f"{LEAN}/Az65/Gen/status.json"))
+        fallback = {a: v["baseline"] for a, v in st.items() if v.get("baseline")}
+    except Exception:
+        pass
     if chk is not None:
         chk.oblige("translator: Gen/*.lean regenerated from /repo source", ok, (out + err)[-1500:] if not ok else "")
+        if fallback:
+            # arms the translator cannot read as they are written now: their Model is the committed
+            # baseline body (a hand-kept model); they are tied to the code by the correspondence only
+            chk.notes.append("mnemonic arms modelled by their committed baseline (not regenerated; tied by the correspondence check only): " + json.dumps(fallback))
+            chk.coverage["arms_not_regenerated"] = fallback
     _built["regen"] = ok
+    _built["fallback"] = fallback
     return ok
 
 
